@@ -141,12 +141,18 @@ impl ZbsdiffBuilder {
                 control_entries.push(ControlEntry::new(
                     0,
                     extra_chunk_size as i64,
-                    old_pos as i64, // Seek to maintain position tracking
+                    0, // Seek offsets are relative: old_pos does not move for extra data
                 ));
 
                 new_pos += extra_chunk_size;
                 // old_pos stays the same for extra data
             }
+        }
+
+        // Handle empty new data: the loop emits no control entries,
+        // but a control block requires at least one entry.
+        if control_entries.is_empty() {
+            return self.build_simple_patch();
         }
 
         let control_block = ControlBlock::with_entries(control_entries)?;
